@@ -379,7 +379,7 @@ func TestVFC20FileSeek(t *testing.T) {
 		defer func() { _ = q.Close() }()
 
 		c := vfC20NewCursor(f)
-		c.set(n) // a fresh reader is at the end of the log until positioned
+		c.setUnknown() // nothing is stated about reads of a reader that was never positioned
 		maxDepth := 0
 		counts := map[string]int{}
 		for ti, tg := range targets {
